@@ -82,8 +82,8 @@ def run(ctx):
         neg = ex.submit(negatives, sub(ctx, "neg"))
         results = []
         if q:
-            five = ex.submit(manager, sub(ctx, "m2"), "five", "MCSync_five.cfg", 350, False, 16)
-            results.append(manager(sub(ctx, "m1"), "quick", "MCSync_quick.cfg", 1800, False, 48))
+            five = ex.submit(manager, sub(ctx, "m2"), "five", "MCSync_five.cfg", 300, False, 16)
+            results.append(manager(sub(ctx, "m1"), "quick", "MCSync_quick.cfg", 1500, False, 48))
             results.append(five.result())
         else:   # one manager replay at a time: 64 processes with a real node each
             results.append(manager(sub(ctx, "m1"), "quick", "MCSync_quick.cfg", 0, True))
